@@ -85,7 +85,11 @@ func genMsg(plan *simrt.Source, big bool, exotic bool) mdesc {
 	var m mdesc
 	m.Kind = plan.Draw(5)
 	m.StrID = plan.Chance(300)
-	switch plan.Draw(5) {
+	switch plan.Draw(7) {
+	case 5: // beyond what a float64 holds exactly
+		m.IDInt = []int64{1<<53 + 1, -(1<<53 + 1), 1<<62 + 1, 1<<63 - 1, -1 << 63, 1<<53 + 2, 1234567890123456789}[plan.Draw(7)]
+	case 6:
+		m.IDInt = 1<<62 + int64(plan.Draw(1000)) + 1
 	case 0:
 		m.IDInt = int64(plan.Draw(10))
 	case 1:
@@ -96,9 +100,6 @@ func genMsg(plan *simrt.Source, big bool, exotic bool) mdesc {
 		m.IDInt = 1<<53 - int64(plan.Draw(3))
 	case 4:
 		m.IDInt = -(1 << 53) + int64(plan.Draw(3))
-	}
-	if exotic && plan.Chance(500) {
-		m.IDInt = 1<<62 + int64(plan.Draw(1000)) + 1
 	}
 	m.IDStr = []string{"", "a", "id-1", "\"q\"", "üid", "1"}[plan.Draw(6)]
 	m.Method = methodPool[plan.Draw(len(methodPool))]
